@@ -253,9 +253,29 @@ def Dfa.bfs (d : Dfa) : Dfa :=
 
 /-! ### `check_for_dead_ends` -/
 
-/-- some state reachable from the start is not a valid end and all its edges carry non-generatable types -/
+/-- one pass of the `while changed` loop: `for state in work: if state in live: continue; … live.append(state)` -/
+def Dfa.livePass (d : Dfa) (generatable : Nat → Bool) (work : List Nat) (live : List Nat) : List Nat :=
+  work.foldl (fun live q =>
+    if live.contains q then live
+    else if (d.edgesOf q).any (fun e => live.contains e.2 && generatable e.1) then live ++ [q]
+    else live) live
+
+/-- the `while changed` loop (every pass but the last adds a state of `work`, so `len(work) + 1` passes suffice) -/
+def Dfa.liveLoop (d : Dfa) (generatable : Nat → Bool) (work : List Nat) : Nat → List Nat → List Nat
+  | 0, live => live
+  | fuel + 1, live =>
+    let live' := d.livePass generatable work live
+    if live'.length == live.length then live else d.liveLoop generatable work fuel live'
+
+/-- the states reachable from the start from which a valid end can be reached through generatable types only -/
+def Dfa.liveStates (d : Dfa) (generatable : Nat → Bool) : List Nat :=
+  let work := d.bfsOrder
+  d.liveLoop generatable work (work.length + 1) (work.filter d.validEnd)
+
+/-- `check_for_dead_ends` raises: some state reachable from the start is not live -/
 def Dfa.hasDeadEnd (d : Dfa) (generatable : Nat → Bool) : Bool :=
-  d.bfsOrder.any (fun q => !d.validEnd q && (d.edgesOf q).all (fun e => !generatable e.1))
+  let live := d.liveStates generatable
+  d.bfsOrder.any (fun q => !live.contains q)
 
 /-! ### the expression read as a regular expression -/
 
